@@ -1068,6 +1068,14 @@ fn replay_c01(case: &Value, rec: &mut Rec) {
 }
 
 fn replay_scope(case: &Value, rec: &mut Rec, scope: Scope) {
+    if case.get("kind").and_then(|k| k.as_str()) == Some("fuzz-bytes") {
+        let data = unhex(case.get("bytes").and_then(|b| b.as_str()).unwrap_or(""));
+        rec.eval(1);
+        if let Err(f) = fuzz_block(&data) {
+            rec.violation(&f.sig, case.clone(), f.detail);
+        }
+        return;
+    }
     match block_from_json(case) {
         Some(c) => {
             let mut p = JPair::new();
